@@ -36,6 +36,7 @@ RULE_DOC = {
     "R-FIND": "single-directory lookup finds the non-leaf entry whose run contains the id",
     "R-LAZY": "no tile-data reader is reachable from the opener",
     "R-BOUNDED-READ": "every read on the open path is the fixed header read or bounded by take(len) after seek(offset) for a header-declared section",
+    "R-CODEC-ALWAYS": "no successful open/write bypasses the directory codec, where Compression::Unknown (and an absent root directory) is refused",
     "R-COLS": "directory columns are transferred in the spec's order with the spec's integer types, through one codec handle",
     "R-DELTA": "tile ids are delta coded against the previous id, starting from 0",
     "R-OFFRULE": "offset column: 0 ⇔ contiguous with the previous entry (index > 0), else offset + 1",
@@ -221,11 +222,11 @@ prop("C18", [rw.r_layout_w, rw.r_abs, rs.r_reseek, rs.r_budget, rw.r_commit_orde
      ["R-REL", "R-LAYOUT-W", "R-ABS", "R-NO-WRITE-BEFORE-P", "R-RESEEK"],
      ["that reading from P yields the archive (run-time)"])
 
-prop("C19", [st.r_rej_empty, rd.r_len0_err, rd.r_cols_reader, rd.r_cols_writer, rr.r_rej_meta, rt.r_factory, st.r_add_offset],
+prop("C19", [st.r_rej_empty, rd.r_len0_err, rd.r_cols_reader, rd.r_cols_writer, rr.r_rej_meta, rt.r_factory, st.r_add_offset, rd.r_codec_always],
      "Each documented rejection is a guard that dominates the effect it protects: the emptiness test precedes every store mutation and its true branch is an error "
      "exit without mutation; `length == 0` is an error exit before the store/emission in decoder and encoder; metadata is accepted only through the Value::Object "
      "pattern and both metadata readers end in that check; Unknown ⇒ Err in all four factories and codecs are built nowhere else.",
-     ["R-REJ-EMPTY", "R-LEN0", "R-REJ-META", "R-REJ-UNKNOWN"],
+     ["R-REJ-EMPTY", "R-LEN0", "R-REJ-META", "R-REJ-UNKNOWN", "R-CODEC-ALWAYS"],
      ["'leaves the archive unchanged' beyond 'no mutation before the guard'"])
 
 prop("C20", [rr.r_lazy, rr.r_bounded_read, rr.r_exact_tile, rh.r_hdr_io, rr.r_walk, rr.r_meta0, rr.r_addr_open, rr.r_seek_after_codec],
